@@ -1,22 +1,144 @@
 #!/venv/bin/python
-"""Self-tests of the reference models (no kernpy needed for most of them). Run by MANIFEST.setup_cmd."""
-import os, sys
+"""Self-tests of the reference models and oracles on hand-written examples (none of them calls kernpy). Run by MANIFEST.setup_cmd."""
+import os
+import sys
+
 sys.path.insert(0, os.path.dirname(os.path.dirname(os.path.abspath(__file__))))
+from kv import alphabet as A
 from kv import catref
+from kv import explore as X
+from kv import pitchref as R
+from kv.model import Model, ref_rows, compare_export, NULL
+
 
 def test_catref():
     assert len(catref.ALL) == 37
     assert catref.DESC['NOTE_REST'] == {'NOTE_REST', 'DURATION', 'NOTE', 'PITCH', 'DECORATION', 'ALTERATION', 'REST'}
     assert catref.selected(['CORE'], ['NOTE']) == catref.DESC['CORE'] - catref.DESC['NOTE']
+    assert catref.selected(None, ['COMMENTS']) == catref.ALL - {'COMMENTS', 'FIELD_COMMENTS', 'LINE_COMMENTS'}
     txt = ".\n├── A\n│   ├── B\n│   └── C\n└── D"
     assert catref.parse_tree_text(txt) == {'A': {'B': {}, 'C': {}}, 'D': {}}
 
+
+def test_pitchref():
+    assert R.transpose(('C', 0, 4), 'M3', 'up') == ('E', 0, 4)
+    assert R.transpose(('B', 0, 3), 'm2', 'up') == ('C', 0, 4)
+    assert R.transpose(('E', -1, 4), 'M2', 'up') == ('F', 0, 4)
+    assert R.transpose(('C', 0, 4), 'd1', 'down') == ('C', 1, 4)
+    assert R.transpose(('F', 0, 4), 'dd5', 'up') == ('C', -2, 5)
+    assert R.transpose(R.transpose(('G', 2, 2), 'AA4', 'up'), 'AA4', 'down') == ('G', 2, 2)
+    assert R.spell('C', 1, 5) == 'cc#' and R.spell('B', -2, 2) == 'BB--' and R.parse('CCC-') == ('C', -1, 1)
+    assert R.interval('octave') == (7, 12) and R.interval('P5') == (4, 7) and R.interval('dd2') == (1, -1)
+    assert len(set(R.INTERVAL_NAMES)) == 40
+    assert R.agnostic('G', 2, 'G', 2) == 'e' and R.agnostic('C', 4, 'E', 4) == 'c' and R.agnostic('F', 3, 'G', 2) == 'dd'
+
+
+def test_spine_model():
+    m = Model(['**kern', '**kern'])
+    m.add([A.SPLIT, A.NULL_I])
+    assert m.spines() == [0, 0, 1]
+    cells = m.add([A.SPLIT, A.NULL_I, A.SPLIT])
+    assert m.spines() == [0, 0, 0, 1, 1]
+    # two join groups of different spines that touch: they do not merge with each other
+    m.add([A.NULL_I, A.JOIN, A.JOIN, A.JOIN, A.JOIN])
+    assert m.spines() == [0, 0, 1]
+    row = m.crows()[-1]
+    assert row[1].children == [] and row[2].children == []            # nothing hangs from them yet
+    nxt = m.add([A.NULL_D, A.NULL_D, A.NULL_D])
+    assert nxt[1].parent is row[1] and nxt[2].parent is row[3]         # each merged path continues from the FIRST cell of its own group
+    assert row[2].children == [] and row[4].children == []             # the other join cells are leaves
+    m.add([A.TERM, A.NULL_I, A.NULL_I])
+    assert m.spines() == [0, 1]
+    m.close()
+    assert m.width() == 0
+    order = [e for e, _ in m.dfs_order()]
+    assert order[0] == '**kern' and order.count('*v') == 4 and order.count('*-') == 3
+    # mid-score global comments are listed after all spines
+    m2 = Model(['**kern'], pre=('!!!COM: x',))
+    m2.add([A.note('4', 'c')])
+    m2.add_g('!!mid')
+    m2.add([A.note('4', 'd')])
+    m2.close()
+    assert [e for e, _ in m2.dfs_order()] == ['!!!COM: x', '**kern', '4c', '4d', '*-', '!!mid']
+    assert m2.text() == '!!!COM: x\n**kern\n4c\n!!mid\n4d\n*-\n'
+
+
+def test_context():
+    m = X.seq_model(['**kern', '**kern'], ['k', 'd', 'S0', 'C', 'd', 'J0', 'd'], 0)
+    ctx = m.context()
+    rows = m.crows()
+    first_clefs = [c.src for c in rows[1]]
+    changed = rows[4][0].src                   # the clef given to the first sub-spine only
+    d_after_split = rows[5]
+    assert ctx[id(d_after_split[0])]['clef'] == changed and ctx[id(d_after_split[1])]['clef'] == first_clefs[0]
+    d_after_join = rows[7]
+    assert ctx[id(d_after_join[0])]['clef'] == changed      # the merged path inherits from the first cell of its group
+    assert ctx[id(d_after_join[1])]['clef'] == first_clefs[1]
+
+
+def test_reference_exporter():
+    m = Model(['**kern', '**text'])
+    m.add([A.V('*clefG2', 'CLEF'), A.NULL_I])
+    m.add([A.V('=1', 'BARLINES', '='), A.V('=1', 'BARLINES', '=')])
+    m.add([A.note('8.', 'ee', '-', ['J', ';'], src='8.ee-J;'), A.text_cell('la', '**text')])
+    m.add([A.CH(A.note('4', 'c', '', ['L']), A.note('4', 'e')), A.NULL_D])
+    m.add([A.NULL_D, A.NULL_D])
+    m.close()
+    full = '**ekern\t**etext\n*clefG2\t*\n=\t=\n8@.@ee@-·;·J\tla\n4@c·L 4@e·L\t.\n*-\t*-\n'
+    assert compare_export(m, full, 'ekern') == []
+    assert compare_export(m, full.replace('·;', ''), 'ekern')[0][0] == 'note-signifiers'
+    assert compare_export(m, full.replace('la', 'lu'), 'ekern')[0][0] == 'verbatim'
+    assert compare_export(m, full.replace('4@c·L 4@e·L', '4@c·L'), 'ekern')[0][0] == 'chord-note-count'
+    assert compare_export(m, full.replace('=\t=\n', ''), 'ekern')[0][0] in ('verbatim', 'cell-count', 'row-missing')
+    kern = '**kern\t**text\n*clefG2\t*\n=\t=\n8.ee-;J\tla\n4cL 4eL\t.\n*-\t*-\n'
+    assert compare_export(m, kern, 'kern') == []
+    # T_cat: only pitches and headers
+    S = catref.selected(['PITCH', 'HEADER', 'CHORD'], None)
+    assert compare_export(m, '**ekern\t**etext\nee\t.\nc e\t.\n', 'ekern', None, S) == []
+    # T_spine and T_cat commute (ref_rows applies both; the order of application cannot matter because each works cell by cell)
+    a = [[x for x in r['exp']] for r in ref_rows(m, {0}, S)]
+    b = [[e for e, c in zip(r['exp'], r['cells']) if c.spine == 0] for r in ref_rows(m, None, S)]
+    assert a == [r for r in b if any(x != NULL for x in r)]
+
+
+def test_acceptor():
+    from kv.props import c08
+    ok = [['**kern', '**kern'], ['*clefG2', '*clefF4'], ['*^', '*'], ['4c', '4e', '4C'], ['*v', '*v', '*'], ['=', '='], ['*-', '*-']]
+    ctx = c08.contexts(ok)
+    assert ctx == [('4c', ('*clefG2', None, None)), ('4e', ('*clefG2', None, None)), ('4C', ('*clefF4', None, None))]
+    for bad, msg in (([['**kern'], ['4c', '4d'], ['*-']], 'cell-count'), ([['4c'], ['*-']], 'no-header'), ([['**kern'], ['4c']], 'spine-not-terminated'),
+                     ([['**kern'], ['*v'], ['*-']], 'join-of-a-single-path'), ([['**kern'], ['*-'], ['4c']], 'row-after')):
+        try:
+            c08.contexts(bad)
+            raise AssertionError(f'accepted {bad}')
+        except ValueError as e:
+            assert msg in str(e), (msg, str(e))
+    assert c08.model_measures([['**kern'], ['*clefG2'], ['4c'], ['=1'], ['4d'], ['=2'], ['*-']]) == [2, 3, 5]
+    assert c08.model_measures([['**kern'], ['=1'], ['4d'], ['*-']]) == [1]
+
+
+def test_recogniser():
+    from kv.props import c18
+    assert c18.classify('=1') == 'BARLINES' and c18.classify('=:|!|:') == 'BARLINES' and c18.classify('=foo') is None
+    assert c18.classify('*clefG2') == 'CLEF' and c18.classify('*clefG2x') is None and c18.classify('*') == 'EMPTY'
+    assert c18.classify('*k[f#c#]') == 'KEY_SIGNATURE' and c18.classify('*M3+2/8') == 'TIME_SIGNATURE' and c18.classify('*M(C|)') == 'METER_SYMBOL'
+    assert c18.barline_export('=12:|!|:;') == '=:|!|:;' and c18.barline_export('==') == '==' and c18.barline_export('=7') == '='
+
+
+def test_alphabet():
+    assert A.dur_parts('8.') == ['8', '.'] and A.dur_parts('16%3') == ['16%3'] and A.dur_parts('8qq') == ['8', 'qq'] and A.dur_parts('2..') == ['2', '.', '.']
+    assert A.dur_parts('8.q') == ['8', '.', 'q'] and A.dur_parts('') == []
+    import math
+    assert math.gcd(len(A.KDATA), 3) == 1 and math.gcd(len(A.KINT), 7) == 1      # palette strides reach every member
+    srcs = [s['src'] for s in A.KDATA]
+    assert len(srcs) == len(set(srcs))
+    assert all('@' not in s and '·' not in s for s in srcs + A.TEXT)
+
+
 if __name__ == '__main__':
     n = 0
-    for mod in list(sys.modules.values()):
-        pass
-    g = dict(globals())
-    for k, f in g.items():
+    for k, f in list(globals().items()):
         if k.startswith('test_') and callable(f):
-            f(); n += 1
+            f()
+            n += 1
     print(f'selftest ok ({n} groups)')
